@@ -99,7 +99,7 @@ func wrapsAnError(call *ssa.Call) (ssa.Value, bool) {
 		}
 		for _, cnd := range cands {
 			for _, leaf := range errLeaves(cnd) {
-				if _, ok := leaf.(*ssa.Call); ok {
+				if lc, ok := leaf.(*ssa.Call); ok && !isFreshErrorCall(lc) {
 					return leaf, true
 				}
 			}
@@ -300,4 +300,44 @@ func isSentinelLoad(v ssa.Value) bool {
 	}
 	_, isG := u.X.(*ssa.Global)
 	return isG
+}
+
+// surveyErrIdentity applies ErrIdentity to every engine function that compares an error by
+// identity with a sentinel; returns the number of consumers.
+func surveyErrIdentity(c *Ctx, rule string, skip map[string]bool, predicates ...string) int {
+	n := 0
+	for _, fn := range c.P.AllFuncs {
+		top := TopLevel(fn)
+		if top.Pkg == nil || !enginePkg(top.Pkg.Pkg.Path()) || fn.Origin() != nil {
+			continue
+		}
+		if skip[shortKey(QName(top))] {
+			continue
+		}
+		if c.ErrIdentity(rule, fn, predicates...) >= 0 {
+			n++
+		}
+	}
+	return n
+}
+
+// isFreshErrorCall: a constructor of the errors / fmt packages that receives no error: the
+// value cannot be (or carry) a sentinel, so marking or wrapping it loses nothing.
+func isFreshErrorCall(call *ssa.Call) bool {
+	cal := call.Common().StaticCallee()
+	if cal == nil {
+		return false
+	}
+	if o := cal.Origin(); o != nil {
+		cal = o
+	}
+	if cal.Pkg == nil {
+		return false
+	}
+	path := cal.Pkg.Pkg.Path()
+	if path != "errors" && path != "fmt" && !strings.HasPrefix(path, "github.com/cockroachdb/errors") {
+		return false
+	}
+	_, wraps := wrapsAnError(call)
+	return !wraps
 }
